@@ -151,6 +151,9 @@ def gen_stack(rng, tickers, dates, fi=False, allow_flow=True, calendar_only=Fals
         st.append(["RebalanceOverTime", rng.randint(2, 4)])
     else:
         st.append(["Rebalance"])
+    if rng.random() < 0.15:
+        # user code at the end of the stack that calls the engine with update=False and leaves the closing update to Backtest.run
+        st.append(["QuietOps", rng.randint(0, 10 ** 6), bool(allow_flow)])
     return st
 
 
@@ -232,6 +235,40 @@ def spy_calls(strategy):
     return out
 
 
+class QuietOps:
+    """a user algo: small capital flows and trades in held securities issued with update=False - the documented way of batching
+    engine calls - relying on the update Backtest.run performs after run().  Deterministic in (seed, date, state)."""
+
+    def __init__(self, seed, flows=True):
+        self.seed = seed
+        self.flows = flows      # capital is injected at the top of a tree only (a flow booked directly on a sub-strategy is a different scenario)
+
+    def __call__(self, target):
+        import random as _random
+        now = target.now
+        try:
+            o = now.toordinal()
+        except Exception:
+            return True
+        r = _random.Random(self.seed * 100003 + o)
+        # sizes are relative (a fraction of the strategy's value / of the position held), so that a run scales with its capital
+        if self.flows and r.random() < 0.5:
+            v = float(target._value)
+            if v == v and v > 0:
+                target.adjust(v * r.choice([0.001, 0.0025, -0.0005]), update=False)
+        if r.random() < 0.7:
+            held = [c for c in target.children.values() if getattr(c, "_issec", False) and c._position != 0 and c._price == c._price and c._price > 0]
+            held.sort(key=lambda c: c.name)       # (not the order in which children happen to have been created)
+            if held:
+                c = held[r.randrange(len(held))]
+                q = c._position * r.choice([0.1, 0.25, -0.1])
+                if target.integer_positions:
+                    q = float(int(q))
+                if q != 0:
+                    c.transact(q, update=False)
+        return True
+
+
 class SetCash:
     def __init__(self, c):
         self.c = c
@@ -303,6 +340,8 @@ def mk_algo(bt, d, tickers, dates, data, perturb=None):
         return a.RunOnDate(*d[1:])
     if n == "CapitalFlow":
         return a.CapitalFlow(d[1])
+    if n == "QuietOps":
+        return QuietOps(d[1], d[2] if len(d) > 2 else True)
     if n == "SelectAll":
         return a.SelectAll()
     if n == "SelectThese":
